@@ -73,9 +73,19 @@ class _Scenarios:
             return self.files[k]
 
         def term(name):
-            return lambda fr, so, args, kw: name + "(" + ",".join(key(a) for a in args) + ")"
+            def f(fr, so, args, kw):
+                if any(a is None for a in args):
+                    raise pai.PyExc("TypeError", ("expected str, bytes or os.PathLike object, not NoneType",))
+                return name + "(" + ",".join(key(a) for a in args) + ")"
 
-        stubs = {"parser.Parser.open_file": open_file, "ext:os.path.isabs": lambda fr, so, a, k: key(a[0]).startswith("/"), "ext:os.path.abspath": term("ABS"), "ext:os.path.join": term("JOIN"), "ext:os.path.dirname": term("DIR"), "ext:os.getcwd": lambda *a: "/cwd", "ext:os.sep": "/"}
+            return f
+
+        def isabs(fr, so, args, kw):
+            if args[0] is None:
+                raise pai.PyExc("TypeError", ("expected str, bytes or os.PathLike object, not NoneType",))
+            return key(args[0]).startswith("/")
+
+        stubs = {"parser.Parser.open_file": open_file, "ext:os.path.isabs": isabs, "ext:os.path.abspath": term("ABS"), "ext:os.path.join": term("JOIN"), "ext:os.path.dirname": term("DIR"), "ext:os.getcwd": lambda *a: "/cwd", "ext:os.sep": "/"}
         self.I = e.interp(stubs=stubs, allow_fork=False, max_depth=60)
 
     @staticmethod
@@ -226,6 +236,10 @@ def run(ctx: Ctx) -> None:
     o, opened = S_.run(S_.text('INCLUDE "sub/a.map"', "L1"), root)
     want = S_.text("A0", "B0", "C0", "A1", "L1")
     ctx.check(o.kind == "return" and o.value == want and opened == [rel("sub/a.map"), rel("b.map"), "/abs/c.map"], "I2", "nested includes resolve against the root file's directory; absolute names are used as given", loc(fn), str(opened), f"nested expansion opens {opened} and gives {(o.value if o.kind == 'return' else o.exc)!r}; expected {[rel('sub/a.map'), rel('b.map'), '/abs/c.map']} and {want.describe()!r}")
+    # (2b) an INCLUDE keyword without a file name is left for the parser to report: nothing is opened, nothing else raised
+    S_.files = {}
+    o, opened = S_.run(S_.text("L0", "INCLUDE", "L1"), root)
+    ctx.check(o.kind == "return" and o.value == S_.text("L0", "INCLUDE", "L1") and not opened, "I2", "an INCLUDE line without a file name is left as it is", loc(fn), "", f"expansion of L0 / INCLUDE / L1 gives {(o.value if o.kind == 'return' else o.exc)!r} and opens {opened}: the parse error the parser would give is replaced by another failure")
     # (3) no file name given: the working directory
     S_.files = {"ABS(JOIN(DIR(/cwd/),a.map))": S_.text("A0")}
     o, opened = S_.run(S_.text("INCLUDE a.map"), None)
@@ -306,4 +320,15 @@ def run(ctx: Ctx) -> None:
             want = SStr([body()])
             good = len(outs) == 1 and outs[0].kind == "return" and outs[0].value == want
             ctx.check(good, "I6", f"quote={q or 'none'} comment={comment}", repo.loc("parser", repo.func(gif_q)), f"returns {outs[0].value!r}" if outs else "", f"returns {[(o.kind, o.value, o.exc) for o in outs]}, expected the bare name")
-    ctx.units.update({"functions": ["parser.Parser.load_includes", "parser.Parser._get_include_filename", "parser.Parser.open_file", "parser.Parser.parse_file", "parser.Parser.load", "parser.Parser.parse"], "pai_paths": I.paths_run})
+    # a comment glued to the name, a comment instead of a name, a bare INCLUDE keyword
+    extra_shapes = [
+        ("comment directly after a quoted name", lambda: SStr(["INCLUDE '", body(), "'#", Atom("c", excludes=frozenset(" \t\n\r\x0b\x0c#"))]), lambda v: v == SStr([body()])),
+        ("comment directly after a bare name", lambda: SStr(["INCLUDE ", body(), "# ", Atom("c", excludes=frozenset(" \t\n\r\x0b\x0c#"))]), lambda v: v == SStr([body()])),
+        ("only a comment after INCLUDE", lambda: SStr(["INCLUDE # ", Atom("c", excludes=frozenset(" \t\n\r\x0b\x0c#"))]), lambda v: v is None),
+        ("bare INCLUDE", lambda: SStr(["INCLUDE"]), lambda v: v is None),
+    ]
+    for name, mk, okv in extra_shapes:
+        outs = I.explore(gif_q, lambda mk=mk: (pai.Inst("parser.Parser") if gif_m else None, [mk()], {}))
+        good = len(outs) == 1 and outs[0].kind == "return" and okv(outs[0].value)
+        ctx.check(good, "I6", name, repo.loc("parser", repo.func(gif_q)), f"returns {outs[0].value!r}" if outs else "", f"for an INCLUDE line with {name} the helper gives {[(o.kind, o.value, o.exc) for o in outs]}" + (" (expected: no file name, so that the parser reports the line)" if "INCLUDE" in name else " (expected the bare name)"))
+    ctx.units.update({"functions": ["parser.Parser.load_includes", gif_q, "parser.Parser.open_file", "parser.Parser.parse_file", "parser.Parser.load", "parser.Parser.parse"], "pai_paths": I.paths_run})
